@@ -367,6 +367,29 @@ def main(out_path: str):
         set_s("surveyHeaderColumns", question.MultipleChoiceQuestion.get_slot_names(), "MultipleChoiceQuestion.get_slot_names()"),
         set_s("choicesHeaderColumns", question.Option.get_slot_names(), "Option.get_slot_names()"),
     ]
+    # C20: the subtag reader at the table boundaries.  For each IANA subtag file: the first / last / shortest /
+    # longest entries (per an independent reading of the file: split on newlines, strip) and near misses of them
+    # (truncations, extensions) ↦ (file, code, member per that reading, member per the implementation's read_tags).
+    from pyxform.validators.pyxform.iana_subtags import validation as _iana
+
+    _rows = []
+    for _fn in ("iana_subtags_2_characters.txt", "iana_subtags_3_or_more_characters.txt"):
+        _text = (Path(_iana.__file__).parent / _fn).read_text(encoding="utf-8")
+        _own = [x.strip() for x in _text.split("\n") if x.strip()]
+        _ownset = set(_own)
+        _bylen = sorted(_own, key=len)
+        _members = list(dict.fromkeys(_own[:2] + _own[-2:] + _bylen[:2] + _bylen[-2:]))
+        _cands = list(_members)
+        for _m in _members:
+            _cands += [_m[:-1], _m[1:], _m + "x", _m + _m[-1], _m.upper()]
+        _read = _iana.read_tags(_fn)
+        for _c in dict.fromkeys(c for c in _cands if c):
+            _rows.append(f"({q(_fn)}, {q(_c)}, {'true' if _c in _ownset else 'false'}, {'true' if _c in _read else 'false'})")
+        _rows.append(f"({q(_fn)}, {q('#count')}, true, {'true' if len(_read) == len(_ownset) else 'false'})")
+    parts.append(
+        "/-- iana_subtags: (file, code, member per an independent reading of the file, member per read_tags) at the table boundaries -/\n"
+        "def ianaBoundary : List (String × String × Bool × Bool) := " + lst(_rows)
+    )
     # C10 / lexer: the two string-set literals of utils.default_is_dynamic (hyphen types, dynamic token names)
     _sets = [
         [e.value for e in n.elts]
